@@ -31,7 +31,7 @@ Self == <<"self">>
 KA == S(<<97>>)
 None == <<"none">>
 
-NCtx == 40
+NCtx == 44
 Ctx(i, h) ==
   CASE i = 1 -> h
     [] i = 2 -> Let(<<<<"v", N(1)>>>>, h)
@@ -73,6 +73,11 @@ Ctx(i, h) ==
     [] i = 38 -> <<"slice", ArrE(<<N(1)>>), h, None, None>>
     [] i = 39 -> Let(<<<<"f", Fn(<<Pm("v")>>, h)>>>>, N(1))
     [] i = 40 -> <<"callx", Fn(<<Pm("w"), Pd("v", N(0))>>, N(1)), <<<<"named", "w", h>>>>>>
+    \* object locals are one recursive group: an earlier local may refer to a later one
+    [] i = 41 -> ObjE(<<OLoc("w", h), OLoc("v", N(1)), Fd("a", "d", V("w"))>>)
+    [] i = 42 -> ObjE(<<OLoc("f", Fn(<<Pm("x")>>, h)), OLoc("v", N(2)), Fd("a", "d", Ap(V("f"), <<N(1)>>))>>)
+    [] i = 43 -> <<"objcomp", V("v"), N(1), <<OLoc("w", h), OLoc("q", N(1))>>, <<<<"for", "v", ArrE(<<KA>>)>>>>>>
+    [] i = 44 -> ObjE(<<Fd("a", "d", V("w")), OLoc("w", h), OAs(T, V("v")), OLoc("v", N(1))>>)
 
 Fillers == {
   N(1), V("v"), V("w"), V("q"),
